@@ -21,9 +21,10 @@ void __CPROVER_assume(bool c) { if (!c) { fprintf(g_proto, "ASSUME-FALSE\n"); ff
 void __CPROVER_assert(bool c, const char* m) { if (!c) { fprintf(g_proto, "ASSERT-FAIL %s\n", m); g_fail++; } }
 void verif_reach(const char* l) { fprintf(g_proto, "REACH %s\n", l); }
 void verif_obs(long v) { fprintf(g_proto, "OBS %ld\n", v); }
-void verif_note(const char*) {}
+void verif_note(const char* t) { if (getenv("VERIF_DEBUG")) fprintf(g_proto, "NOTE %s\n", t); }
 void ir2c_global_ctors(void) {}
 unsigned long verif_file_size(const char* p) { struct stat st; if (stat(p, &st) != 0) return (unsigned long)-1; return st.st_size; }
+unsigned long verif_file_hash(const char* p) { FILE* f = fopen(p, "rb"); if (!f) return (unsigned long)-1; unsigned long h = 1469598103UL; int c; while ((c = fgetc(f)) != EOF) h = (unsigned long)(((unsigned __int128)h * 1099511UL + (unsigned long)c + 1) % 2305843009213693951UL); fclose(f); return h; }
 // ---- the same persistence-event model as the engine's VFS, on the real file system (linked with -Wl,--wrap=...):
 // output streams opened by the code under test are buffered here; a flush of a non-empty buffer is one atomic persistence event.
 static long g_die_after = -1, g_die_base = 0;
@@ -97,10 +98,22 @@ int __wrap_unlink(const char* p) { struct stat st; if (stat(p, &st) != 0) return
 int __wrap_rename(const char* a, const char* b) { struct stat st; if (stat(a, &st) != 0) return __real_rename(a, b); if (vfs_event()) return 0; return __real_rename(a, b); }
 int __wrap_truncate(const char* p, off_t n) { struct stat st; if (stat(p, &st) != 0) return __real_truncate(p, n); if (vfs_event()) return 0; return __real_truncate(p, n); }
 void verif_expect_fatal(int) {}
-static FILE* g_cap;
-void verif_stdout_capture(void) { fflush(stdout); if (!g_cap) g_cap = tmpfile(); dup2(fileno(g_cap), 1); }
-long verif_stdout_len(void) { fflush(stdout); if (!g_cap) return 0; struct stat st; fstat(fileno(g_cap), &st); return st.st_size; }
-long verif_stdout_copy(char* buf, long cap) { fflush(stdout); if (!g_cap) return 0; long n = verif_stdout_len(); if (n > cap) n = cap; long r = pread(fileno(g_cap), buf, n, 0); return r < 0 ? 0 : r; }
+static FILE* g_cap; static FILE* g_cap_err; static long g_err_base, g_out_base;
+void verif_stdout_capture(void) { fflush(stdout); fflush(stderr); if (!g_cap) g_cap = tmpfile(); dup2(fileno(g_cap), 1); { struct stat so; fstat(fileno(g_cap), &so); g_out_base = so.st_size; }
+  if (!g_cap_err) { g_cap_err = tmpfile(); dup2(fileno(g_cap_err), 2); } struct stat st; fstat(fileno(g_cap_err), &st); g_err_base = st.st_size; }
+long verif_stderr_copy(char* buf, long cap) { fflush(stderr); if (!g_cap_err) return 0; struct stat st; fstat(fileno(g_cap_err), &st); long n = st.st_size - g_err_base; if (n > cap) n = cap; long r = pread(fileno(g_cap_err), buf, n, g_err_base); return r < 0 ? 0 : r; }
+// exit() inside verif_call_catching_exit (linked with --wrap=exit): flush stdio as exit does, then unwind without running destructors
+#include <setjmp.h>
+static jmp_buf g_exit_jmp; static int g_exit_catch; static int g_exit_code;
+void __real_exit(int);
+void __wrap_exit(int code) { if (g_exit_catch) { fflush(NULL); g_exit_code = code; longjmp(g_exit_jmp, 1); } __real_exit(code); }
+long verif_call_catching_exit(void (*fn)(void*), void* arg) {
+  g_exit_catch++;
+  if (setjmp(g_exit_jmp) == 0) { fn(arg); g_exit_catch--; return -1; }
+  g_exit_catch--; return g_exit_code;
+}
+long verif_stdout_len(void) { fflush(stdout); if (!g_cap) return 0; struct stat st; fstat(fileno(g_cap), &st); return st.st_size - g_out_base; }
+long verif_stdout_copy(char* buf, long cap) { fflush(stdout); if (!g_cap) return 0; long n = verif_stdout_len(); if (n > cap) n = cap; long r = pread(fileno(g_cap), buf, n, g_out_base); return r < 0 ? 0 : r; }
 }
 int main(int argc, char** argv) {
   if (argc > 1) { FILE* f = fopen(argv[1], "r"); long v; while (f && fscanf(f, "%ld", &v) == 1) g_vec.push_back(v); if (f) fclose(f); }
